@@ -110,7 +110,7 @@ func c14Run(p c14Params) func() {
 			settle := mc.Choose(2, mc.Free) == 0
 			strict := settle && !unsettled && !p.second
 			mc.Log(Op{"lost", k, strict})
-			sock.Deliver(&knxnet.RoutingLost{Count: uint16(k)})
+			deliverLost(sock, k)
 			if settle {
 				mc.Sleep(1000 * ms)
 			} else {
@@ -153,7 +153,7 @@ func c14Run(p c14Params) func() {
 				send(true)
 			case c == 2:
 				mc.Log(Op{"busy", 10, false})
-				sock.Deliver(&knxnet.RoutingBusy{WaitTime: 10 * ms, Control: 1})
+				deliverBusy(sock, 10, 1)
 				mc.Sleep(1 * ms) // the indication is taken in; the next operation falls into the 10 ms pause
 			case c == 3:
 				mc.Log(Op{"pause", 0, false})
@@ -183,7 +183,7 @@ func c14Run(p c14Params) func() {
 		// final probe of the retained history
 		mc.Sleep(2000 * ms)
 		mc.Log(Op{"probe", 65535, !unsettled && !p.second})
-		sock.Deliver(&knxnet.RoutingLost{Count: 65535})
+		deliverLost(sock, 65535)
 		mc.Sleep(5000 * ms)
 		if reader == 1 {
 			mc.GoEnv("reader", drain)
